@@ -5,6 +5,7 @@ Property theorems and non-vacuity examples only.
 import StyluaModel.Lemmas.Paren
 import StyluaModel.Lemmas.StrLit
 import StyluaModel.Lemmas.Parser
+import StyluaModel.Lemmas.TypeParen
 
 namespace StyluaModel.C02
 open StyluaModel StyluaModel.ParenRule StyluaModel.Prec StyluaModel.ParenLemmas Expr
@@ -69,7 +70,42 @@ theorem C02_number (t : List Char) :
   · exact Or.inr (Or.inr ⟨_, rfl, rfl⟩)
   · exact Or.inl rfl
 
+/-- **Luau types keep their meaning**: whatever parentheses the type-parenthesis rule drops, in every
+context and for every layout oracle (which parenthesised types go multi-line), the formatted
+type denotes the type that was written - parentheses forgotten except a one-element pack as a
+generic argument, unions of unions and intersections of intersections flattened -/
+theorem C02_type_meaning (o : List Nat → Bool) (p : List Nat) (c : TypeParen.Ctx) (t : TypeParen.Ty) :
+    TypeSpec.sem (TypeParen.fmtT TypeParen.current o p c t) = TypeSpec.sem t :=
+  TypeLemmas.sem_fmtT o t p c
+
+/-- … and it can still be read back: if the written type was well-formed at its position and the
+context records at least what that position demands (it does: flags only accumulate on the
+way down, `format_type_info` starts from the empty context at a delimited position), then so is
+the formatted type, at every depth -/
+theorem C02_type_reparses (o : List Nat → Bool) (p : List Nat) (c : TypeParen.Ctx) (pos : TypeSpec.Pos)
+    (t : TypeParen.Ty) (hw : TypeSpec.wf pos t = true) (hc : TypeSpec.covers c pos = true) :
+    TypeSpec.wf pos (TypeParen.fmtT TypeParen.current o p c t) = true :=
+  (TypeLemmas.wf_fmtT o t pos p c hw hc).1
+
+/-- the entry point: `format_type_info` (empty context, delimited position) -/
+theorem C02_type_entry (o : List Nat → Bool) (t : TypeParen.Ty) (hw : TypeSpec.wf .top t = true) :
+    TypeSpec.wf .top (TypeParen.fmtT TypeParen.current o [] TypeParen.Ctx.new t) = true ∧
+    TypeSpec.sem (TypeParen.fmtT TypeParen.current o [] TypeParen.Ctx.new t) = TypeSpec.sem t :=
+  ⟨(TypeLemmas.wf_fmtT o t .top [] _ hw rfl).1, TypeLemmas.sem_fmtT o t [] _⟩
+
+/-- why the context must travel into a dropped parenthesis: formatting the content of `((() -> A))?`
+in a fresh context (the seeded change C02b) yields `() -> A?`, a function returning an optional -/
+theorem C02_type_fresh_context_violates :
+    let t : TypeParen.Ty := .opt (.paren (.paren (.fn [] (.basic 0))))
+    let bad := TypeParen.fmtT { ctxIntoParen := false } (fun _ => false) [] TypeParen.Ctx.new t
+    let good := TypeParen.fmtT TypeParen.current (fun _ => false) [] TypeParen.Ctx.new t
+    bad = .opt (.fn [] (.basic 0)) ∧ TypeSpec.wf .top bad = false ∧
+    good = .opt (.paren (.fn [] (.basic 0))) ∧ TypeSpec.wf .top good = true := ⟨rfl, rfl, rfl, rfl⟩
+
 /-! ## non-vacuity -/
+example : TypeSpec.wf .top (.union [.basic 0, .paren (.union [.basic 1, .opt (.basic 2)])]) = true := by decide
+example : TypeParen.fmtT TypeParen.current (fun _ => false) [] TypeParen.Ctx.new
+    (.union [.basic 0, .paren (.union [.basic 1, .opt (.basic 2)])]) = .union [.basic 0, .union [.basic 1, .opt (.basic 2)]] := rfl
 example : faithful (bin .star (paren (bin .plus (atom 0) (call 1))) (paren (atom 2))) = true := by decide
 example : fmtS repaired .std (bin .star (paren (bin .plus (atom 0) (call 1))) (paren (atom 2)))
     = bin .star (paren (bin .plus (atom 0) (call 1))) (atom 2) := by decide
